@@ -85,10 +85,18 @@ def run_case(case):
             failures.append(fail("remove_useless_symbols", "shape:useless_symbol_left", bad[:4]))
         changed |= G.prod_set() != before
     with guard(failures, "remove_epsilon"):
-        G = cmp("remove_epsilon", g.remove_epsilon(), lang - {()})
+        r_eps = g.remove_epsilon()
+        G = cmp("remove_epsilon", r_eps, lang - {()})
         if any(not b for _h, b in G.prods):
             failures.append(fail("remove_epsilon", "shape:epsilon_production_left"))
         changed |= G.prod_set() != before
+        # the result is a grammar like any other: cleaned again it keeps its language and has the promised shape
+        G2 = cmp("remove_epsilon.remove_useless_symbols", r_eps.remove_useless_symbols(), lang - {()})
+        bad = shape_useless(G2)
+        if bad:
+            failures.append(fail("remove_epsilon.remove_useless_symbols", "shape:useless_symbol_left", bad[:4]))
+        if r_eps.is_empty() != G.is_empty():      # the reference's own fixpoint on the extracted productions
+            failures.append(fail("remove_epsilon.is_empty", "wrong:%s" % r_eps.is_empty()))
     with guard(failures, "eliminate_unit_productions"):
         G = cmp("eliminate_unit_productions", g.eliminate_unit_productions(), lang)
         if any(len(b) == 1 and b[0][0] == 'V' for _h, b in G.prods):
